@@ -21,8 +21,8 @@ pub const FILL_FREE: u8 = 0xDD;
 
 /// (data pages per slot, number of slots)
 const CLASSES: [(usize, usize); 7] = [
-    (1, 4096),
-    (4, 1024),
+    (1, 8192),
+    (4, 1536),
     (16, 256),
     (64, 96),
     (256, 32),
